@@ -28,14 +28,15 @@ ASSUMPTIONS = ['comparison is with the frame as it was when saved (a derived fra
                'HDF5 round trips are only driven for frames of >= 3 integrations and >= 3 channels (blimpy\'s reader rejects smaller files)',
                'blimpy container conventions (f_start/f_stop as band edges) are not judged: get_waterfall() is judged by its header and data only']
 STARTS = ['synthetic', 'from_data', 'shape', 'loaded_fil', 'loaded_h5', 'loaded_fsel']
-OPS = ['add_noise', 'add_signal', 'get_waterfall', 'copy', 'save_fil', 'save_h5', 'reload_fil', 'reload_h5', 'get_slice', 'dedrift', 'pickle']
+OPS = ['add_noise', 'add_signal', 'get_waterfall', 'copy', 'save_fil', 'save_h5', 'reload_fil', 'reload_h5', 'get_slice', 'dedrift', 'pickle',
+       'other_frame']
 
 
 def required(tier):
     b = {f'start:{s}': 5 for s in STARTS}
     b.update({f'op:{o}': 10 for o in OPS})
     b.update({'orient:asc': 30, 'orient:desc': 30, 'fmt:fil': 100, 'fmt:h5': 100, 'derived-frame-saved': 30,
-              'saved-after-get_waterfall': 20, 'helper-sweep': 15})
+              'saved-after-get_waterfall': 20, 'helper-sweep': 15, 'ancestor-saved-after-child': 30})
     return {'buckets': b, 'counters': {'saves_monitored': 300, 'helper_header_combos': 2000, 'pixels_compared': 100000},
             'checks': 5000, 'nontrivial': 100}
 
@@ -216,6 +217,7 @@ def _run(stg, c, d, R):
     nops = 0
     derived = False
     saw_get_wf = False
+    ancestors = []          # frames this history derived something from (they must still save correctly afterwards)
     for o in c['ops']:
         op = o['op']
         R.bucket('op:' + op)
@@ -232,7 +234,19 @@ def _run(stg, c, d, R):
                 saw_get_wf = True
                 check_waterfall_object(wf, snap, R)
             elif op == 'copy':
+                ancestors.append(fr)
                 fr = fr.copy()
+            elif op == 'other_frame':
+                # an unrelated frame of another geometry is built and saved / turned into a Waterfall in between
+                other = stg.Frame(fchans=int(5 + o['a'] * 40), tchans=int(3 + o['b'] * 9), df=7.0, dt=3.0, fch1=2.5e9,
+                                  ascending=not c['asc'], seed=1, t_start=1.5e9, source_name='OTHER')
+                other.data = marker(rng, other.tchans, other.fchans)
+                osnap = snapshot(other)
+                if o['a'] < 0.5:
+                    other.get_waterfall()
+                po = newpath('fil')
+                other.save_fil(po)
+                verify_file(stg, po, 'fil', osnap, R, 'unrelated-frame')
             elif op in ('save_fil', 'save_h5'):
                 if op == 'save_h5' and not h5_ok(fr):
                     R.count('h5_skipped_blimpy_minimum_3x3')
@@ -253,10 +267,12 @@ def _run(stg, c, d, R):
             elif op == 'get_slice' and fr.fchans >= 3:
                 l = int(o['a'] * (fr.fchans - 2))
                 r = l + 1 + int(o['b'] * (fr.fchans - l - 1))
+                ancestors.append(fr)
                 fr = fr.get_slice(l, max(r, l + 1))
                 derived = True
             elif op == 'dedrift' and fr.fchans >= 8 and fr.tchans >= 2:
                 maxd = 0.3 * fr.fchans * fr.df / (fr.tchans * fr.dt)
+                ancestors.append(fr)
                 fr = stg.dedrift(fr, (o['a'] - 0.5) * 2 * maxd)
                 derived = True
             elif op == 'pickle':
@@ -283,6 +299,17 @@ def _run(stg, c, d, R):
         R.check(np.array_equal(after['data'], snap['data']) and np.array_equal(after['fs'], snap['fs']) and after['t_start'] == snap['t_start'],
                 'save-modified-the-frame', fmt=fmt)
         verify_file(stg, p, fmt, snap, R, tag)
+    # ancestors of the final frame: deriving / copying / saving a child must not have changed how the parent saves
+    for ai, anc in enumerate(ancestors[-3:]):
+        R.bucket('ancestor-saved-after-child')
+        for fmt in ('fil', 'h5'):
+            if fmt == 'h5' and not h5_ok(anc):
+                continue
+            p = newpath(fmt)
+            snap = snapshot(anc)
+            with common.quiet():
+                (anc.save_fil if fmt == 'fil' else anc.save_h5)(p)
+            verify_file(stg, p, fmt, snap, R, 'ancestor-after-child')
     R.mark_nontrivial(fr.fchans >= 2 and fr.tchans >= 2 and nops >= 1)
     if c['helper']:
         helper_sweep(stg, c, d, R, rng)
